@@ -12,9 +12,11 @@ type vhC08Ctx struct {
 	a, b *vObj
 	newA int64
 	res  []string // observable results of the calls, per thread slot
+	s0   *Search  // evaluated before the concurrent phase
+	s1   *Search
 }
 
-var vhC08Names = []string{"Get", "Exist", "Count", "All", "Search", "SearchUnindexed", "SearchAnd", "SearchOr",
+var vhC08Names = []string{"Get", "Exist", "Count", "All", "Search", "SearchUnindexed", "SearchAnd", "SearchOr", "Collect",
 	"AssignIndex", "Insert", "Update", "Many", "Delete", "DeleteAll", "SearchDelete", "Create", "Control",
 	"Commit", "FlushAll", "Repair", "Schema"}
 
@@ -29,6 +31,15 @@ func vhErrS(err error) string {
 // observed into c.res[slot].
 func vhC08Op(c *vhC08Ctx, k, slot int) func() {
 	db := c.db
+	if c.s0 == nil { // first-access modes: the search values are created inside the call
+		switch vhC08Names[k] {
+		case "SearchAnd", "SearchOr", "Collect":
+			return func() {
+				sr := db.Search(&vObj{}, "A", ">=", int64(0))
+				c.res[slot] = string(rune('0'+sr.Len())) + vhErrS(sr.Err())
+			}
+		}
+	}
 	ident := func(u string) *vObj { o := &vObj{}; o.Initialize(u); return o }
 	set := func(s string) { c.res[slot] = s }
 	cnt := func(objs []Object, err error) string {
@@ -54,13 +65,27 @@ func vhC08Op(c *vhC08Ctx, k, slot int) func() {
 	case "All":
 		return func() { set(cnt(db.All(&vObj{}))) }
 	case "Search":
-		return func() { set(cnt(db.Search(&vObj{}, "A", ">=", int64(0)).Collect())) }
+		return func() {
+			sr := db.Search(&vObj{}, "A", ">=", int64(0))
+			set(string(rune('0'+sr.Len())) + vhErrS(sr.Err()))
+		}
 	case "SearchUnindexed":
-		return func() { set(cnt(db.Search(&vObj{}, "U", ">=", uint64(0)).Collect())) }
-	case "SearchAnd":
-		return func() { set(cnt(db.Search(&vObj{}, "A", ">=", int64(0)).And("S", "=", "s").Collect())) }
+		return func() {
+			sr := db.Search(&vObj{}, "U", ">=", uint64(0))
+			set(string(rune('0'+sr.Len())) + vhErrS(sr.Err()))
+		}
+	case "SearchAnd": // one refinement call on a search evaluated beforehand
+		return func() {
+			sr := c.s0.And("S", "=", "s")
+			set(string(rune('0'+sr.Len())) + vhErrS(sr.Err()))
+		}
 	case "SearchOr":
-		return func() { set(cnt(db.Search(&vObj{}, "A", "=", int64(1)).Or("A", "=", int64(2)).Collect())) }
+		return func() {
+			sr := c.s0.Or("A", "=", int64(7))
+			set(string(rune('0'+sr.Len())) + vhErrS(sr.Err()))
+		}
+	case "Collect":
+		return func() { set(cnt(c.s1.Collect())) }
 	case "AssignIndex":
 		return func() {
 			var t []int64
@@ -114,6 +139,9 @@ func vhC08Setup(mode int) *vhC08Ctx {
 	if mode == 1 || mode == 3 { // first access after Open
 		vAssert("C08.pre.close", db.Close() == nil)
 		c.db = Open(root)
+	} else {
+		c.s0 = c.db.Search(&vObj{}, "A", ">=", int64(0))
+		c.s1 = c.db.Search(&vObj{}, "A", ">=", int64(0))
 	}
 	return c
 }
@@ -133,4 +161,60 @@ func VH_C08_pairs() {
 	vPar(vhC08Op(c, x, 0), vhC08Op(c, y, 1))
 	vRaceCheck("C08.race")
 	vAssert("C08.par.completed", c.res[0] != "" && c.res[1] != "")
+}
+
+type vhC08Obs struct {
+	r0, r1 string
+	err    string
+	vals   []int64
+	n      int
+}
+
+func vhC08Final(c *vhC08Ctx) vhC08Obs {
+	var t []int64
+	err := c.db.AssignIndex(&vObj{}, "A", &t)
+	n, _ := c.db.Count(&vObj{})
+	return vhC08Obs{c.res[0], c.res[1], vhErrS(err), t, n}
+}
+
+func vhC08ObsEq(a, b vhC08Obs) bool {
+	if a.r0 != b.r0 || a.r1 != b.r1 || a.err != b.err || a.n != b.n || len(a.vals) != len(b.vals) {
+		return false
+	}
+	eq := true
+	for i := range a.vals {
+		eq = vAnd(eq, a.vals[i] == b.vals[i])
+	}
+	return eq
+}
+
+// VH_C08_linear: results and final state of two concurrent calls equal
+// those of one of the two sequential orders (field value symbolic).
+func VH_C08_linear() {
+	n := len(vhC08Names)
+	x := vChoice("x", n)
+	y := vChoice("y", n)
+	if y < x {
+		return
+	}
+	mode := vChoice("mode", vBound("MODES", 2))
+	newA := vInt64("newA")
+	run := func(order int) vhC08Obs {
+		c := vhC08Setup(mode)
+		c.newA = newA
+		fx, fy := vhC08Op(c, x, 0), vhC08Op(c, y, 1)
+		switch order {
+		case 0:
+			fx()
+			fy()
+		case 1:
+			fy()
+			fx()
+		case 2:
+			vPar(fx, fy)
+		}
+		return vhC08Final(c)
+	}
+	xy, yx, par := run(0), run(1), run(2)
+	vAssert("C08.linearizable", vOr(vhC08ObsEq(par, xy), vhC08ObsEq(par, yx)))
 }
